@@ -286,6 +286,29 @@ func (g *DocGen) val(t *Ty, depth int) string {
 		// (arrays of thousands of elements only occur in the "big data" samples,
 		// whose expressions are linear: a generated expression may well be
 		// quadratic, and cost is not what is being checked)
+		if t.E.K == 'n' && !g.big && n >= 2 && g.r.P(1, 6) {
+			// already in ascending order (fast paths that skip work or copies
+			// when there is nothing to do)
+			start, step := g.r.Intn(10)-3, g.r.Intn(3)
+			return g.arr(n, func(i int) string {
+				v := start + i*step
+				if i == n-1 && step == 0 {
+					v++
+				}
+				return jnum(pick(g.r, []string{"f64", "jn", "int"}), strconv.Itoa(v))
+			})
+		}
+		if t.E.K == 's' && !g.big && n >= 2 && g.r.P(1, 6) {
+			sorted := []string{"", "10", "2", "Zed", "a b", "alpha", "beta", "delta", "gamma", "héllo", "x", "日本語"}
+			at := g.r.Intn(len(sorted))
+			return g.arr(n, func(i int) string {
+				j := at + i
+				if j >= len(sorted) {
+					j = len(sorted) - 1
+				}
+				return jsonString(sorted[j])
+			})
+		}
 		bad := -1
 		if g.big && g.latePoison && depth <= 1 && n > 60 && g.r.P(1, 2) {
 			bad = n - 1 - g.r.Intn(5)
@@ -470,6 +493,9 @@ func GenFamilyExpr(r *Rng, fam string) *Expr {
 		e = fn(pick(r, []string{"max_by", "min_by"}), arr(), key())
 	case "sort":
 		e = fn(pick(r, []string{"sort", "reverse"}), arr())
+		if r.P(1, 3) {
+			e = fn(pick(r, []string{"sort", "reverse"}), e)
+		}
 		if r.P(1, 2) {
 			// a filter or projection directly on the function result
 			e = &Expr{K: KFilter, C: []*Expr{e, mkS(KBin, pick(r, []string{">", "<", "!="}), cur, numLit(r)), nil}}
